@@ -381,6 +381,16 @@ pub fn cases(opts: &Opts) -> Vec<Case> {
             proj.pkgs[pi].raw = crate::genp::variants::multi_error_text(&mut p);
             name.push_str("+errors");
         }
+        if i % 5 == 3 {
+            // an illegal *configuration* (import cycle, misnamed or missing package, orphan impl,
+            // use without import, ...): the compiler must end with a diagnostic here as well
+            use crate::genp::variants::{ILLEGAL_KINDS, inject};
+            let kind = ILLEGAL_KINDS[(i / 5) % ILLEGAL_KINDS.len()].clone();
+            if let Some((_, bad, _)) = inject(&proj, &kind, &mut p) {
+                out.push(Case { name: format!("{name}+illegal:{kind:?}"), files: bad, proj: None });
+                continue;
+            }
+        }
         let keep = if i % 5 == 4 { None } else { Some(proj.clone()) };
         out.push(Case { name, files: proj.render(), proj: keep });
     }
